@@ -21,6 +21,7 @@ import (
 	"math"
 	"math/rand"
 	"os"
+	"sort"
 	"strconv"
 	"strings"
 	"time"
@@ -400,6 +401,61 @@ func (c08) Gen(rng *rand.Rand, tier string, emit func(string)) {
 	emit("cons 61636774 00000000 61746774 00000000 -2,2,2,0")
 	emit("cons 61636774 28282828 61746774 28282828 2,2,-2,0")
 	emit("cons 61636774 5d5d5d5d 61746774 5d5d5d5d 0,4")
+
+	// ---- quality / base boundary cases of the consensus column rule
+	syms := []byte("acgtrymkswbdhvn")
+	for _, x := range syms {
+		for _, qx := range []byte{0, 1, 2, 90, 91, 93} {
+			// x opposite a gap: internal (gap in B / gap in A), leading, trailing
+			emit(fmt.Sprintf("cons %s %s %s %s 0,1,-1,1", hx([]byte{'g', x, 'c'}), hx([]byte{40, qx, 40}), hx([]byte("gc")), hx(q(2, 40))))
+			emit(fmt.Sprintf("cons %s %s %s %s 0,1,1,1", hx([]byte("gc")), hx(q(2, 40)), hx([]byte{'g', x, 'c'}), hx([]byte{40, qx, 40})))
+			emit(fmt.Sprintf("cons %s %s %s %s -1,2", hx([]byte{x, 'a', 'c'}), hx([]byte{qx, 40, 40}), hx([]byte("ac")), hx(q(2, 40))))
+			emit(fmt.Sprintf("cons %s %s %s %s 0,2,1,0", hx([]byte("ac")), hx(q(2, 40)), hx([]byte{'a', 'c', x}), hx([]byte{40, 40, qx})))
+			emit(fmt.Sprintf("cons %s %s %s %s 1,2", hx([]byte("ac")), hx(q(2, 40)), hx([]byte{x, 'a', 'c'}), hx([]byte{qx, 40, 40})))
+			emit(fmt.Sprintf("cons %s %s %s %s 0,2,-1,0", hx([]byte{'a', 'c', x}), hx([]byte{40, 40, qx}), hx([]byte("ac")), hx(q(2, 40))))
+		}
+	}
+	// every ordered pair of symbols at equal qualities (IUPAC union), with the stale qM/qm taken from
+	// nothing (first column), from an unequal column, from a gap column
+	for rot := 0; rot < len(syms); rot++ {
+		rs := append(append([]byte{}, syms[rot:]...), syms[:rot]...)
+		for _, qv := range []byte{0, 1, 40, 93} {
+			emit(fmt.Sprintf("cons %s %s %s %s 0,%d", hx(syms), hx(q(15, qv)), hx(rs), hx(q(15, qv)), len(syms)))
+			qa2 := append([]byte{50}, q(15, qv)...)
+			qb2 := append([]byte{10}, q(15, qv)...)
+			emit(fmt.Sprintf("cons %s %s %s %s 0,%d", hx(append([]byte{'a'}, syms...)), hx(qa2), hx(append([]byte{'c'}, rs...)), hx(qb2), len(syms)+1))
+			emit(fmt.Sprintf("cons %s %s %s %s -1,%d", hx(append([]byte{'a'}, syms...)), hx(qa2), hx(rs), hx(q(15, qv)), len(syms)))
+			emit(fmt.Sprintf("cons %s %s %s %s 1,%d", hx(syms), hx(q(15, qv)), hx(append([]byte{'c'}, rs...)), hx(qb2), len(syms)))
+		}
+	}
+	// n opposite a base / a base opposite n, every order of the two qualities; mismatch quality
+	// qM - adj(qm) at the ends of the table (wrap of the byte subtraction, cap at 90)
+	for _, x := range []byte("acgtn") {
+		for _, qq := range [][2]byte{{0, 0}, {0, 1}, {1, 0}, {1, 1}, {1, 2}, {2, 1}, {40, 40}, {40, 41}, {41, 40}, {93, 93}, {93, 1}, {1, 93}, {93, 92}, {80, 10}, {89, 1}, {90, 0}} {
+			emit(fmt.Sprintf("cons %s %s %s %s 0,3", hx([]byte{'g', 'n', 'c'}), hx([]byte{30, qq[0], 30}), hx([]byte{'g', x, 'c'}), hx([]byte{30, qq[1], 30})))
+			emit(fmt.Sprintf("cons %s %s %s %s 0,3", hx([]byte{'g', x, 'c'}), hx([]byte{30, qq[0], 30}), hx([]byte{'g', 'n', 'c'}), hx([]byte{30, qq[1], 30})))
+			emit(fmt.Sprintf("cons %s %s %s %s 0,3", hx([]byte{'g', x, 'c'}), hx([]byte{30, qq[0], 30}), hx([]byte{'g', 't', 'c'}), hx([]byte{30, qq[1], 30})))
+		}
+	}
+	// pairs whose quality-0 / quality-1 bases sit in the unpaired ends and opposite an internal indel
+	// (alignment mode: the record returned by AssemblePESequences is the consensus)
+	for _, fast := range []int{0, 1} {
+		for _, qe := range []byte{0, 1} {
+			qa3, qb3 := q(40, 35), q(40, 35)
+			for _, k := range []int{0, 7, 8, 19} {
+				qa3[k] = qe
+			}
+			for _, k := range []int{20, 33, 39} {
+				qb3[k] = qe
+			}
+			emit(c08Line(fast, 1, 5, 0, 0, 10, 9, 10, frag[0:40], qa3, frag[20:60], qb3, frag[0:60], 0, 20))
+			// one base deleted from B inside the overlap: A's base faces a gap, with quality qe
+			bd := append(append([]byte{}, frag[20:30]...), frag[31:60]...)
+			qa4 := q(40, 35)
+			qa4[30] = qe
+			emit(c08Line(fast, 1, 5, 0, 0, 10, 5, 10, frag[0:40], qa4, bd, q(39, 35), nil, 0, 0))
+		}
+	}
 
 	// qualities at the extremes (0, 1, 40, 93) on every geometry, N / IUPAC reads, overlaps 0 / 1 / full,
 	// reads of unequal length, every option value
@@ -1315,7 +1371,8 @@ func (c08) Exec(c string) (string, []Fail) {
 				}
 			}
 		}
-		return fmt.Sprintf("%s s=%s q=%s dir=%s as=%s bs=%s al=%d ma=%d sc=%d", md, hx(oseq), hx(oq), dir, ass, bss, al, ma, sc)
+		return fmt.Sprintf("%s s=%s q=%s dir=%s as=%s bs=%s al=%d ma=%d sc=%d ann=%s", md, hx(oseq), hx(oq), dir, ass, bss, al, ma, sc,
+			c08Annotations(an, al, ma, vnum, vden))
 	})
 	for k := range c08Shifts {
 		delete(c08Shifts, k)
@@ -1395,6 +1452,62 @@ func (c08) Exec(c string) (string, []Fail) {
 	}
 	stat("outcome:" + strings.Fields(sb.String())[0][:1])
 	return sb.String(), fails
+}
+
+// c08Thousandths prints math.Round(x*1000) of a float annotation that is a rounded ratio num/den of small
+// integers; "~" when the exact ratio sits on a rounding boundary (float and exact rounding may differ there).
+func c08Thousandths(v float64, num, den int) string {
+	if den > 0 && num >= 0 && (2000*num)%(2*den) == den {
+		return "~"
+	}
+	return strconv.Itoa(int(math.Round(v * 1000)))
+}
+
+// c08Annotations prints EVERY annotation of the record, keys sorted, in the canonical form of the model
+// (Model/PEAnnot.lean `annotations`): an unexpected or a missing key is a correspondence mismatch.
+func c08Annotations(an obiseq.Annotation, al, ma, vnum, vden int) string {
+	keys := make([]string, 0, len(an))
+	for k := range an {
+		keys = append(keys, k)
+	}
+	sort.Strings(keys)
+	ents := make([]string, 0, len(keys))
+	for _, k := range keys {
+		var val string
+		switch x := an[k].(type) {
+		case int:
+			val = strconv.Itoa(x)
+		case string:
+			val = x
+		case float64:
+			switch k {
+			case "score_norm":
+				val = c08Thousandths(x, ma, al)
+			case "paring_fast_score":
+				if vnum < 0 {
+					val = strconv.Itoa(int(math.Round(x * 1000)))
+				} else {
+					val = c08Thousandths(x, vnum, vden)
+				}
+			default:
+				val = "float?" + strconv.FormatUint(math.Float64bits(x), 16)
+			}
+		case map[string]int:
+			ks := make([]string, 0, len(x))
+			for kk := range x {
+				ks = append(ks, kk)
+			}
+			sort.Strings(ks)
+			for i, kk := range ks {
+				ks[i] = kk + ":" + strconv.Itoa(x[kk])
+			}
+			val = "{" + strings.Join(ks, ",") + "}"
+		default:
+			val = fmt.Sprintf("?%T", x)
+		}
+		ents = append(ents, k+"="+strings.ReplaceAll(val, " ", "_"))
+	}
+	return strings.Join(ents, ";")
 }
 
 func b2i(b bool) int {
